@@ -65,9 +65,10 @@ MUTANTS = [
      "                        # Mark the action as executed\n                        pass\n", "join() never returns after a task ran"),
     ("c09-future-stores-repr", "C09", T, "            self._done_event.set(result)", "            self._done_event.set(result if result is None or isinstance(result, (int, str)) else repr(result))",
      "the future does not yield the very object returned"),
-    ("c09-enqueue-unlocked", "C09", T, "        with self.__lock:\n            # Add the task to the queue\n            self._queue.put((method, args, kwargs, future), True, self._timeout)\n            self.__nb_pending_task += 1\n\n            if self.__nb_pending_task > self.__nb_threads:\n                # All threads are taken: start a new one\n                self.__start_thread()",
-     "        self._queue.put((method, args, kwargs, future), True, self._timeout)\n        self.__nb_pending_task += 1\n\n        if self.__nb_pending_task > self.__nb_threads:\n            # All threads are taken: start a new one\n            self.__start_thread()",
-     "enqueue no longer serialised with stop()/clear(): pending counter races"),
+    ("c09-enqueue-unlocked", "C09", T, "            with self.__lock:\n                self.__nb_pending_task += 1\n\n                if self.__nb_pending_task > self.__nb_threads:\n                    # All threads are taken: start a new one\n                    self.__start_thread()",
+     "            self.__nb_pending_task += 1\n\n            if self.__nb_pending_task > self.__nb_threads:\n                # All threads are taken: start a new one\n                self.__start_thread()",
+     "the accounting of enqueue is no longer done under the pool lock: pending counter races"),
+    ("c10-enqueue-put-under-pool-lock-reverted", "C10", T, "        with self.__enqueue_lock:\n", "        with self.__lock:\n", "a producer blocked on a full bounded queue holds the pool lock again"),
     ("c10-max-not-enforced", "C10", T, "            if self.__nb_threads >= self._max_threads:\n                # Can't create more threads\n                return False",
      "            if self.__nb_threads > self._max_threads:\n                # Can't create more threads\n                return False", "one thread too many"),
     ("c10-retire-below-min", "C10", T, "                        self.__nb_threads > self._min_threads\n", "                        self.__nb_threads >= self._min_threads\n",
@@ -81,8 +82,10 @@ MUTANTS = [
      "stop() wakes nobody: it only ends when the idle timeouts expire (for ever with long / absent timeouts)"),
     ("c11-restart-keeps-stop-flag", "C11", T, "        # Clear the stop event\n        self._done_event.clear()\n", "        # Clear the stop event\n        if not self._threads:\n            self._done_event.clear()\n        self._threads = []\n",
      "control: equivalent restart logic"),
-    ("c12-server_close-keeps-pool", "C12", S, "        SimpleJSONRPCServer.server_close(self)\n        self.__request_pool.stop()", "        SimpleJSONRPCServer.server_close(self)",
+    ("c12-server_close-keeps-pool", "C12", S, "        self.__request_pool.join()\n        self.__request_pool.stop()", "        self.__request_pool.join()",
      "request pool workers survive server_close"),
+    ("c12-server_close-drain-reverted", "C12", S, "        self.__request_pool.join()\n        self.__request_pool.stop()", "        self.__request_pool.stop()",
+     "requests accepted and queued are dropped by server_close again"),
     ("c12-request-enqueued-twice", "C12", S, "        self.__request_pool.enqueue(\n            self.process_request_thread, request, client_address\n        )",
      "        self.__request_pool.enqueue(\n            self.process_request_thread, request, client_address\n        )\n        if self.__request_pool._queue.qsize() > 3:\n            self.__request_pool.enqueue(\n                self.process_request_thread, request, client_address\n            )",
      "under load a connection is handled twice"),
@@ -97,8 +100,9 @@ MUTANTS = [
      "2.0 notifications carry id null"),
     ("c14-params-always-emitted", "C14", J, "        if params or self.version < 1.1:", "        if params is not None or self.version < 1.1:", "2.0 requests carry empty params"),
     ("c14-error-data-none-emitted", "C14", J, "        if data is not None:\n            error[\"error\"][\"data\"] = data", "        error[\"error\"][\"data\"] = data", "data: null emitted"),
-    ("c15-load-restore-dropped", "C15", K, "    finally:\n        # Restore the class information for further usage\n        obj[\"__jsonclass__\"] = raw_jsonclass",
-     "    finally:\n        pass\n    obj[\"__jsonclass__\"] = raw_jsonclass", "failed load drops the descriptor again"),
+    ("c15-load-reorders-keys-reverted", "C15", K, "    for key, value in obj.items():\n        if key == \"__jsonclass__\":",
+     "    obj[\"__jsonclass__\"] = obj.pop(\"__jsonclass__\")\n    for key, value in obj.items():\n        if key == \"__jsonclass__\":",
+     "load moves the class information to the end of the caller's dict again"),
     ("c15-dump-keeps-tuples", "C15", K, "    elif isinstance(obj, utils.ITERABLE_TYPES):\n        # List, set or tuple\n        return [",
      "    elif isinstance(obj, utils.TupleType) and not obj:\n        return obj\n\n    elif isinstance(obj, utils.ITERABLE_TYPES):\n        # List, set or tuple\n        return [",
      "empty tuples are returned as tuples"),
@@ -107,8 +111,11 @@ MUTANTS = [
      "callback invoked with (None, None) before the result is stored"),
     ("c16-lock-reverted", "C16", T, "            self.__callback = None\n            self.__extra = None\n\n        if callback is not None:", "        if callback is not None:",
      "registration not consumed: double notification is back"),
-    ("c16-callback-exception-escapes", "C16", T, "            except Exception as ex:\n                self._logger.exception(\"Error calling back method: %s\", ex)",
-     "            except TypeError as ex:\n                self._logger.exception(\"Error calling back method: %s\", ex)", "non-TypeError callback exceptions escape execute/set_callback"),
+    ("c16-callback-exception-escapes", "C16", T, "                    extra,\n                )\n            except Exception as ex:\n                self._logger.exception(\"Error calling back method: %s\", ex)",
+     "                    extra,\n                )\n            except TypeError as ex:\n                self._logger.exception(\"Error calling back method: %s\", ex)", "non-TypeError callback exceptions escape execute"),
+    ("c16-late-registration-through-the-slot-reverted", "C16", T, "            done = self._done_event.is_set()\n            if not done:\n                self.__callback = method\n                self.__extra = extra\n",
+     "            done = False\n            self.__callback = method\n            self.__extra = extra\n", "registrations on a finished future share the single slot again"),
+    ("c16-wait-raises-on-timeout-reverted", "C16", T, "        if result and self.__exception is not None:", "        if self.__exception is not None:", "result(timeout) delivers the exception before done() again"),
     ("c17-length-from-text", "C17", S, "        self.send_header(\"Content-length\", str(len(response)))", "        self.send_header(\"Content-length\", str(len(response.decode(\"utf-8\"))))",
      "server Content-Length counts characters"),
     ("c17-query-dropped-for-unix", "C17", J, "        if use_unix:\n            unix_path = self.__handler\n            self.__handler = \"/\"", "        if use_unix:\n            unix_path = self.__handler\n            self.__handler = \"/\"\n            self.__query_string = \"\"",
@@ -137,7 +144,12 @@ MUTANTS = [
      "        yield self\n        self.__transport.pop_headers(headers)", "exceptional exit leaks headers"),
     ("c19-no-close-on-error", "C19", J, "            # a strange state, so we clear it.\n            self.close()\n            raise", "            # a strange state, so we clear it.\n            raise",
      "broken connection stays cached"),
-    ("c19-no-drain", "C19", J, "        if response.getheader(\"content-length\", 0):\n            response.read()\n", "", "non-200 body left on the keep-alive connection: the NEXT call fails once (BadStatusLine), which the property allows (at most one further failing call) - control"),
+    ("c19-no-drain", "C19", J, "        if response.getheader(\"content-length\", 0):\n            try:\n                response.read()\n            except Exception:\n                # The body has been cut short: the connection is not usable\n                # anymore, but the error to report is still the status\n                self.close()\n", "", "non-200 body left on the keep-alive connection: the NEXT call fails once (BadStatusLine), which the property allows (at most one further failing call) - control"),
+    ("c19-drain-guard-reverted", "C19", J, "            try:\n                response.read()\n            except Exception:\n                # The body has been cut short: the connection is not usable\n                # anymore, but the error to report is still the status\n                self.close()\n", "            response.read()\n", "a cut error body raises IncompleteRead again"),
+    ("c19-multicall-keeps-failed-jobs-reverted", "C19", J, "        jobs = self._job_list[:]\n        del self._job_list[:]\n", "        jobs = self._job_list[:]\n", "failed jobs are sent again with the next batch"),
+    ("c20-multicall-default-config-reverted", "C20", J, "        self._config = config or getattr(\n            server, \"_config\", jsonrpclib.config.DEFAULT\n        )", "        self._config = config or jsonrpclib.config.DEFAULT", "MultiCall(proxy) uses the shared DEFAULT Config again"),
+    ("c14-fault-data-translation-reverted", "C14", J, "        if data is not None and config.use_jsonclass:", "        if False:", "Fault data is emitted raw again"),
+    ("c17-cgi-byte-read-reverted", "C17", S, "            request_text = utils.from_bytes(reader.read(length))", "            request_text = sys.stdin.read(length)", "the CGI handler reads characters again"),
     ("c19-2xx-accepted", "C19", J, "            if response.status == 200:", "            if response.status < 300:", "201/202 replies parsed as results"),
     ("c20-ignore-not-propagated", "C20", K, "                attrs[attr_name] = dump(\n                    attr_value,\n                    serialize_method,\n                    ignore_attribute,\n                    ignore,\n                    config,\n                )",
      "                attrs[attr_name] = dump(\n                    attr_value,\n                    serialize_method,\n                    ignore_attribute,\n                    None,\n                    config,\n                )", "ignore argument not applied to nested beans"),
